@@ -17,6 +17,7 @@ import (
 	"fmt"
 	"math/rand"
 	"net"
+	"runtime"
 	"strings"
 	"sync"
 	"sync/atomic"
@@ -631,5 +632,56 @@ func main() {
 	}
 	wg.Wait()
 	run.Set("scenarios", len(scs))
+	if !poisoned.Load() {
+		goroutineScenario()
+	}
 	run.Finish()
+}
+
+// goroutineScenario: calls that have returned hold no goroutine either.  Run alone, after every other
+// scenario has finished: a healthy peer, a proxy with a push callback (such proxies keep their
+// connections alive on their own) and one without, 400 sequential calls each; the process's goroutine
+// count afterwards is what it was after the first few calls.
+func goroutineScenario() {
+	srv := netlab.NewScriptServer(func(ev *netlab.ReqEvent) {
+		if ev.Err == nil {
+			_ = ev.Conn.Send(netlab.Echo(ev))
+		}
+	})
+	defer srv.Stop()
+	for _, push := range []bool{false, true} {
+		cl := rpcw.NewDirect([]string{srv.Addr}, rpcw.Opt{InvokeTimeoutMs: 3000, ReadTimeout: 100 * time.Millisecond})
+		if push {
+			cl.SP.SetPushCallback(func([]byte) {})
+		}
+		call := func(i int) bool {
+			ctx, cancel := context.WithTimeout(context.Background(), 5*time.Second)
+			defer cancel()
+			_, _, err := cl.Call(ctx, "echo", []byte(fmt.Sprintf("c09-goroutines-%v-%d", push, i)), false)
+			return err == nil
+		}
+		okAll := true
+		for i := 0; i < 10; i++ {
+			okAll = call(i) && okAll
+		}
+		time.Sleep(300 * time.Millisecond)
+		g0 := runtime.NumGoroutine()
+		const n = 400
+		for i := 0; i < n; i++ {
+			okAll = call(10+i) && okAll
+		}
+		if !okAll {
+			run.Inconclusive("goroutine scenario: a call to the healthy peer failed")
+			continue
+		}
+		var g1 int
+		waitFor(func() bool { g1 = runtime.NumGoroutine(); return g1 <= g0+20 }, 3*time.Second)
+		run.Eval(1)
+		if g1 > g0+50 {
+			run.Violation("resources-left-behind", map[bool]string{true: "goroutines:push-callback-proxy", false: "goroutines"}[push], fmt.Sprintf("%d successful sequential calls on a healthy peer left %d goroutines behind (%d before, %d after, 3 s after the last call returned)", n, g1-g0, g0, g1),
+				map[string]interface{}{"calls": n, "goroutines_before": g0, "goroutines_after": g1, "proxy_has_push_callback": push})
+		} else {
+			run.Distinct(fmt.Sprintf("goroutines|push=%v", push))
+		}
+	}
 }
